@@ -347,6 +347,30 @@ def bounded(rep, tier, seed):
                     got, ok = repr(ex)[:100], False
                 if not ok:
                     fails.append({"runner": runner.__name__, "cel": text, "observed": repr(got), "expected": want})
+        # nested macros (same and different variable names, a context variable of the same name) and size() in code points
+        nested = [("[1, 2].map(x, [10, 20].map(x, x))", [[10, 20], [10, 20]], {}), ("[1, 2].map(x, [10, 20].map(y, x + y))", [[11, 21], [12, 22]], {}),
+                  ("[1, 2].map(x, x + 1)", [2, 3], {"x": ct.IntType(100)}), ("[1, 2].filter(x, [2, 3].exists(x, x == 3))", [1, 2], {}),
+                  ("[1, 2].exists_one(x, [x].all(x, x == 2))", True, {}), ("[[1, 2], [3]].map(l, l.map(l, l * 2))", [[2, 4], [6]], {})]
+        for text, want, b in nested:
+            n += 1
+            try:
+                got = env.program(env.compile(text)).evaluate(dict(b))
+                ok = got == want
+            except Exception as ex:
+                got, ok = repr(ex)[:100], False
+            if not ok:
+                fails.append({"runner": runner.__name__, "cel": text, "bindings": sorted(b), "observed": repr(got), "expected": want})
+        for s_ in ["", "abc", "e\u0301", "\u1112\u1161\u11ab", "\U0001f431", "a\u0308\u0323", "\u00e9"]:
+            for form in ("size(s)", "s.size()", "size(s + s) == size(s) + size(s)"):
+                n += 1
+                want = len(s_) if "==" not in form else True
+                try:
+                    got = env.program(env.compile(form)).evaluate({"s": ct.StringType(s_)})
+                    ok = got == want
+                except Exception as ex:
+                    got, ok = repr(ex)[:100], False
+                if not ok:
+                    fails.append({"runner": runner.__name__, "cel": form, "s": ascii(s_), "observed": repr(got), "expected": want})
         for text in ["[1, 2, 3][3]", "[1, 2, 3][-1]", "{'a': 1}['b']", "{'a': 1, 'a': 2}", "'abc'.matches('(')", "[][0]"]:
             n += 1
             try:
